@@ -202,6 +202,24 @@ func (eng *Engine) parseType(pkg *types.Package, s string) types.Type {
 			return nil
 		}
 		return types.NewSlice(t)
+	case strings.HasPrefix(s, "arr["):
+		depth := 0
+		for i := 3; i < len(s); i++ {
+			if s[i] == '[' {
+				depth++
+			} else if s[i] == ']' {
+				depth--
+				if depth == 0 {
+					k := eng.parseType(pkg, s[4:i])
+					v := eng.parseType(pkg, s[i+1:])
+					if k == nil || v == nil {
+						return nil
+					}
+					return &SpecArr{k, v}
+				}
+			}
+		}
+		return nil
 	case strings.HasPrefix(s, "map["):
 		depth := 0
 		for i := 3; i < len(s); i++ {
@@ -348,6 +366,12 @@ func (eng *Engine) effectOf(fn *ssa.Function) effect {
 	name := fn.String()
 	if e, ok := effectTable[name]; ok {
 		return e
+	}
+	if d, ok := eng.cs.Effects[funcKey(fn)]; ok {
+		if d == "pure" {
+			return effPure
+		}
+		return effNoop
 	}
 	var path string
 	if p.Pkg != nil {
